@@ -72,6 +72,17 @@ def run_history(item):
             est = None
             steps.append({"c": c, "o": o})
             continue
+        if op == "reconf":       # set_params: the existing object gets the parameters of configuration c["knob"] (1-based)
+            cls = type(ad)
+            ad.cfg = dict(cls.configs[c["knob"] - 1])
+            ad.cfg.update(item.get("cfg_extra") or {})
+            try:
+                target = ad.make().get_params(deep=False)
+                est.set_params(**target)
+            except Exception as e:  # noqa
+                return {"skip": "set_params / get_params unsupported: " + type(e).__name__ + ": " + str(e)[:120]}
+            steps.append({"c": c, "o": o})
+            continue
         if op == "knob":
             ks = ad.knobs
             if est is not None and ks:
